@@ -104,8 +104,8 @@ type Conn struct {
 	Name      string
 	OnWrite   func(c *Conn, p []byte) // called for every accepted write (before logging)
 	Extra     func(c *Conn) []byte    // called when In is exhausted: more input (e.g. a responder)
-	LastWith  Fault // FailDataEOF / FailDataErr / FailTimeout: the Read that hands out the last byte of In also reports this
-	FailStart int   // offset at which the failing Read started (-1: none yet)
+	LastWith  Fault                   // FailDataEOF / FailDataErr / FailTimeout: the Read that hands out the last byte of In also reports this
+	FailStart int                     // offset at which the failing Read started (-1: none yet)
 	NoReadLog bool                    // do not log successful Reads (bulk read-side use)
 }
 
